@@ -395,6 +395,7 @@ class TheJoker:
         mcmc_init : dict
 
         """
+        import astropy.units as u
         import pymc as pm
         import pytensor.tensor as pt
 
@@ -436,7 +437,23 @@ class TheJoker:
             mcmc_init = custom_func(mcmc_init, MAP_sample, model)
         mcmc_init = {k: np.squeeze(v) for k, v in mcmc_init.items()}
 
-        p = self.prior.pars
+        # The model below works with bare numbers: times in days relative to
+        # the reference epoch, velocities in the data unit, angles in radians
+        rv_unit = data.rv.unit
+        p = {
+            "P": xu.to_unit(self.prior.pars["P"], u.day),
+            "e": self.prior.pars["e"],
+            "omega": xu.to_unit(self.prior.pars["omega"], u.rad),
+            "M0": xu.to_unit(self.prior.pars["M0"], u.rad),
+            "s": xu.to_unit(self.prior.pars["s"], rv_unit),
+            "K": xu.to_unit(self.prior.pars["K"], rv_unit),
+        }
+        _, offset_names = validate_n_offsets(self.prior.n_offsets)
+        _, vtrend_names = validate_poly_trend(self.prior.poly_trend)
+        for name in offset_names:
+            p[name] = xu.to_unit(self.prior.pars[name], rv_unit)
+        for i, name in enumerate(vtrend_names):
+            p[name] = xu.to_unit(self.prior.pars[name], rv_unit / u.day**i)
 
         if "t_peri" not in model.named_vars:
             with model:
@@ -458,9 +475,6 @@ class TheJoker:
         M = get_trend_design_matrix(data, ids, self.prior.poly_trend)
 
         # deal with v0_offsets, trend here:
-        _, offset_names = validate_n_offsets(self.prior.n_offsets)
-        _, vtrend_names = validate_poly_trend(self.prior.poly_trend)
-
         with model:
             v_pars = (
                 [p["v0"]]
